@@ -89,6 +89,9 @@ def generate(cls, rng):
             ("EST5EDT,M3.2.0,M11.1.0", 11, 7),
             ("NZST-12NZDT,M9.5.0,M4.1.0/3", 9, 26),
             ("NZST-12NZDT,M9.5.0,M4.1.0/3", 4, 4)])
+        # ... or every datetime of the run aware in that zone (one shared
+        # zone object), the process zone left alone
+        init["zone_aware"] = rng.random() < 0.4
         init["base"] = [2021, month, 1, 0, 0, 0]
         for r in ("rrules", "exrules"):
             for m in init[r]:
@@ -206,7 +209,11 @@ def execute(cls, scenario, ctx):
     if init.get("aware"):
         RL.AWARE_OFFSETS = [0, -360, 720]
         ctx.probe("aware_members_mixed_offsets")
-    if init.get("proc_tz"):
+    if init.get("proc_tz") and init.get("zone_aware"):
+        from dateutil import tz as _tz
+        RL.AWARE_ZONE = _tz.tzstr(init["proc_tz"])
+        ctx.probe("aware_in_one_dst_zone_with_repeated_hour_dates")
+    elif init.get("proc_tz"):
         import os
         import time
         os.environ["TZ"] = init["proc_tz"]
@@ -371,7 +378,8 @@ def text_route(ctx, raw, init):
     naive datetimes, whole seconds, at most one plain inclusion rule, no
     exclusion rules."""
     from dateutil import rrule as rr
-    if init.get("aware") or raw["exrule"] or len(raw["rrule"]) > 1:
+    if init.get("aware") or init.get("zone_aware") or raw["exrule"] or \
+            len(raw["rrule"]) > 1:
         return
     for p in raw["rrule"]:
         if not isinstance(p, dict) or p.get("kind") == "set" or \
